@@ -422,7 +422,7 @@ theorem replace_layout (A : Bytes) (m : List Slot) (post : List Page) (c1 cK : P
     (hch : Chain m) (hhead : (m.map (·.1)).head? = some c1) (hlast : (m.map (·.1)).getLast? = some cK)
     (hnew : new ≠ []) (hser : c1.serial = ser)
     (hren : ∀ p ∈ prepare c1 cK new, Renderable p) (hpost : ∀ p ∈ post, Good p)
-    (hseq : c1.sequence + new.length + (post.filter (·.serial = ser)).length ≤ 2 ^ 32) :
+    (hseq : m.length ≠ new.length → c1.sequence + new.length + (post.filter (·.serial = ser)).length ≤ 2 ^ 32) :
     replace (A ++ slotsBytes m ++ renderPages post) (rds A.length m) new =
       ⟨A ++ renderPages (splicePages (fitPages m.length (prepare c1 cK new)) m) ++
          renderPages (if m.length ≠ new.length then renum ser (c1.sequence + new.length) post else post), none⟩ := by
@@ -457,9 +457,10 @@ theorem replace_layout (A : Bytes) (m : List Slot) (post : List Page) (c1 cK : P
   simp only
   rw [spliceEnd_chain m _ (by simp [length_fitPages _ _ hm0]) hch, ← renderPages_splicePages]
   split
-  · have := renumber_pages ser post (A ++ renderPages (splicePages (fitPages m.length (prepare c1 cK (n0 :: nr))) m))
+  · rename_i hdiff
+    have := renumber_pages ser post (A ++ renderPages (splicePages (fitPages m.length (prepare c1 cK (n0 :: nr))) m))
       (c1.sequence + (n0 :: nr).length) ((A ++ renderPages (splicePages (fitPages m.length (prepare c1 cK (n0 :: nr))) m) ++ renderPages post).length + 1)
-      hpost hseq (by
+      hpost (hseq hdiff) (by
         have := length_renderPages_ge post
         simp only [List.length_append]; omega)
     simp only [List.length_append] at this ⊢
@@ -625,7 +626,8 @@ theorem injectRaw_layout (c : Codec) (L : Layout) (h : L.OK c) (vc padData : Byt
     (hnp : newPacket c old0 vc padData pad L.render.length = .ok new0)
     (hnew : newPages c (new0 :: others) L.oldPages = .ok new) (hne : new ≠ [])
     (hren : ∀ p ∈ prepare L.c1 L.cK new, Renderable p)
-    (hseq : L.c1.sequence + new.length + (L.post.filter (·.serial = L.serial)).length ≤ 2 ^ 32) :
+    (hseq : L.slots.length ≠ new.length →
+      L.c1.sequence + new.length + (L.post.filter (·.serial = L.serial)).length ≤ 2 ^ 32) :
     injectRaw c L.render vc padData pad = ⟨renderPages (L.after new), none⟩ := by
   have hsl : L.slots ≠ [] := by
     intro he; have := h.chain; rw [he] at this; exact this
@@ -650,7 +652,8 @@ theorem save_layout (c : Codec) (L : Layout) (h : L.OK c) (vc padData : Bytes) (
     (hnp : newPacket c old0 vc padData pad L.render.length = .ok new0)
     (hnew : newPages c (new0 :: others) L.oldPages = .ok new) (hne : new ≠ [])
     (hren : ∀ p ∈ prepare L.c1 L.cK new, Renderable p)
-    (hseq : L.c1.sequence + new.length + (L.post.filter (·.serial = L.serial)).length ≤ 2 ^ 32) :
+    (hseq : L.slots.length ≠ new.length →
+      L.c1.sequence + new.length + (L.post.filter (·.serial = L.serial)).length ≤ 2 ^ 32) :
     save c L.render vc padData pad = .ok (renderPages (L.after new)) := by
   unfold save injectOutcome
   rw [injectRaw_layout c L h vc padData pad old0 new0 others new hpk hnp hnew hne hren hseq]
@@ -1635,6 +1638,276 @@ theorem renderable_prepare (o0 oL : Page) (new : List Page) (ho0 : o0.serial < 2
   · rcases h5 with h5 | h5 <;> rw [h5] <;> omega
 
 
+theorem canon_congr (p o : Page) (h1 : p.packets.map List.length = o.packets.map List.length) (h2 : p.complete = o.complete)
+    (ho : Canon o) : Canon p := by
+  unfold Canon at *
+  rw [h1, h2]; exact ho
+
+/-! ### the pages `from_packets` builds are read back as they are (`Canon`) -/
+
+theorem canon_of_complete (p : Page) (h : p.complete = true) : Canon p := Or.inl h
+
+theorem canon_incomplete (p : Page) (q : List Bytes) (l : Bytes) (hp : p.packets = q ++ [l]) (hc : p.complete = false)
+    (hl : l.length % 255 = 0) (hne : l ≠ []) : Canon p := by
+  refine Or.inr ⟨hc, q.map List.length, l.length / 255, ?_, ?_⟩
+  · have : l.length ≠ 0 := by intro h; exact hne (List.eq_nil_of_length_eq_zero h)
+    omega
+  · rw [hp]; simp only [List.map_append, List.map_cons, List.map_nil]
+    congr 2; omega
+
+/-- what is known about the current page while a packet of `orig` bytes is being laid out and
+`packet` is what is left of it -/
+structure InvC (s : St) (packet : Bytes) (orig : Nat) : Prop where
+  done : ∀ p ∈ s.done, Canon p
+  compl : s.cur.complete = true
+  ne : s.cur.packets ≠ []
+  lastmod : packet ≠ [] → ∀ l, s.cur.packets.getLast? = some l → l.length % 255 = 0
+  total : ∀ l, s.cur.packets.getLast? = some l → (l.length + packet.length) % 255 = orig % 255
+  nonempty : ∀ l, s.cur.packets.getLast? = some l → l = [] → packet = [] → orig = 0
+
+theorem inner_invC (pol : Policy) (chunk wiggle : Nat) (hc : 0 < chunk) (hch : chunk % 255 = 0) (s : St) (packet : Bytes)
+    (orig : Nat) (h : InvC s packet orig) : InvC (inner pol chunk wiggle hc s packet) [] orig := by
+  have step1 : ∀ (s : St) (packet : Bytes), packet ≠ [] → InvC s packet orig →
+      let data := packet.take chunk
+      let rest := packet.drop chunk
+      let s1 : St :=
+        if pol.fits s.cur data then
+          { s with cur := { s.cur with packets := extLast s.cur.packets data } }
+        else
+          match s.cur.packets.getLast? with
+          | some l =>
+            if l ≠ [] then
+              let old := { s.cur with complete := false,
+                                      position := if s.cur.packets.length = 1 then -1 else s.cur.position }
+              { done := s.done ++ [old],
+                cur := { packets := [data], continued := true, sequence := s.cur.sequence + 1 } }
+            else
+              let old := { s.cur with packets := s.cur.packets.dropLast }
+              { done := s.done ++ [old],
+                cur := { packets := [data], continued := !old.complete, sequence := s.cur.sequence + 1 } }
+          | none => s
+      (∀ p ∈ s1.done, Canon p) ∧ s1.cur.complete = true ∧
+        ∃ q l, s1.cur.packets = q ++ [l] ∧ l ≠ [] ∧ (rest ≠ [] → l.length % 255 = 0) ∧
+          (l.length + rest.length) % 255 = orig % 255 := by
+    intro s packet hpk h
+    have hdne : packet.take chunk ≠ [] := by
+      intro he
+      have := congrArg List.length he
+      simp only [List.length_take, List.length_nil] at this
+      cases packet with
+      | nil => exact hpk rfl
+      | cons a b => simp at this; omega
+    have hdlen : packet.drop chunk ≠ [] → (packet.take chunk).length = chunk := by
+      intro hr
+      have : chunk < packet.length := by
+        apply Nat.lt_of_not_le; intro hle
+        exact hr (List.drop_eq_nil_of_le hle)
+      simp [List.length_take]; omega
+    have hsplit : (packet.take chunk).length + (packet.drop chunk).length = packet.length := by
+      simp [List.length_take, List.length_drop]; omega
+    obtain ⟨q, l, hql⟩ : ∃ q l, s.cur.packets = q ++ [l] := by
+      rcases List.eq_nil_or_concat s.cur.packets with hh | ⟨q, l, hh⟩
+      · exact absurd hh h.ne
+      · exact ⟨q, l, by rw [hh, List.concat_eq_append]⟩
+    have hlast : s.cur.packets.getLast? = some l := by rw [hql]; simp
+    have hl0 := h.lastmod hpk l hlast
+    have htot := h.total l hlast
+    simp only
+    split
+    · -- fits
+      refine ⟨h.done, h.compl, q, l ++ packet.take chunk, by simp only [hql, extLast_concat], by simp [hdne], ?_, ?_⟩
+      · intro hr
+        have := hdlen hr
+        simp only [List.length_append, this]; omega
+      · simp only [List.length_append]; omega
+    · rw [hlast]
+      simp only
+      split
+      · rename_i hlne
+        refine ⟨?_, rfl, [], packet.take chunk, rfl, hdne, ?_, ?_⟩
+        · intro p hp
+          rcases List.mem_append.mp hp with hp | hp
+          · exact h.done p hp
+          · simp only [List.mem_singleton] at hp; subst hp
+            exact canon_incomplete _ q l hql rfl hl0 hlne
+        · intro hr; rw [hdlen hr]; exact hch
+        · omega
+      · rename_i hle
+        have hle' : l = [] := Classical.not_not.mp hle
+        refine ⟨?_, rfl, [], packet.take chunk, rfl, hdne, ?_, ?_⟩
+        · intro p hp
+          rcases List.mem_append.mp hp with hp | hp
+          · exact h.done p hp
+          · simp only [List.mem_singleton] at hp; subst hp
+            exact canon_of_complete _ h.compl
+        · intro hr; rw [hdlen hr]; exact hch
+        · omega
+  fun_induction inner pol chunk wiggle hc s packet with
+  | case1 s =>
+    exact h
+  | case2 s packet hpk data rest s1 hw =>
+    obtain ⟨h1, h2, q, l, h3, h4, h5, h6⟩ := step1 s packet hpk h
+    have h3' : s1.cur.packets = q ++ [l] := h3
+    refine ⟨h1, h2, ?_, fun hh => absurd rfl hh, ?_, ?_⟩
+    · simp only [h3', extLast_concat]; simp
+    · intro l' hl'
+      simp only [h3', extLast_concat] at hl'
+      simp at hl'; subst hl'
+      simp only [List.length_append, List.length_nil, Nat.add_zero]
+      exact h6
+    · intro l' hl' hle
+      simp only [h3', extLast_concat] at hl'
+      simp at hl'; subst hl'
+      simp at hle
+      exact absurd hle.1 h4
+  | case3 s packet hpk data rest s1 hw ih =>
+    obtain ⟨h1, h2, q, l, h3, h4, h5, h6⟩ := step1 s packet hpk h
+    have h3' : s1.cur.packets = q ++ [l] := h3
+    apply ih
+    refine ⟨h1, h2, by rw [h3']; simp, ?_, ?_, ?_⟩
+    · intro hr l' hl'
+      rw [h3'] at hl'; simp at hl'; subst hl'; exact h5 hr
+    · intro l' hl'
+      rw [h3'] at hl'; simp at hl'; subst hl'; exact h6
+    · intro l' hl' hle
+      rw [h3'] at hl'; simp at hl'; subst hl'; exact absurd hle h4
+
+
+theorem outer_invC (pol : Policy) (chunk wiggle : Nat) (hc : 0 < chunk) (hch : chunk % 255 = 0) (s : St) (ps : List Bytes)
+    (hd : ∀ p ∈ s.done, Canon p) (hcp : s.cur.complete = true) :
+    (∀ p ∈ (outer pol chunk wiggle hc s ps).done, Canon p) ∧ (outer pol chunk wiggle hc s ps).cur.complete = true ∧
+      ∀ lastP, ps.getLast? = some lastP → ∀ l, (outer pol chunk wiggle hc s ps).cur.packets.getLast? = some l →
+        l.length % 255 = lastP.length % 255 ∧ (l = [] → lastP = []) := by
+  induction ps generalizing s with
+  | nil =>
+    refine ⟨by simpa [outer] using hd, by simpa [outer] using hcp, ?_⟩
+    intro lastP hl; simp at hl
+  | cons p ps ih =>
+    simp only [outer]
+    have hsf : ∀ sf : St, sf = (if pol.pre s.cur = true ∧ s.cur.packets ≠ [] then
+        ({ done := s.done ++ [s.cur], cur := { sequence := s.cur.sequence + 1 } } : St) else s) →
+        (∀ q ∈ sf.done, Canon q) ∧ sf.cur.complete = true := by
+      intro sf hsf
+      split at hsf
+      · rw [hsf]
+        refine ⟨?_, rfl⟩
+        intro q hq
+        rcases List.mem_append.mp hq with hq | hq
+        · exact hd q hq
+        · simp only [List.mem_singleton] at hq; subst hq; exact canon_of_complete _ hcp
+      · rw [hsf]; exact ⟨hd, hcp⟩
+    generalize hsfe : (if pol.pre s.cur = true ∧ s.cur.packets ≠ [] then
+        ({ done := s.done ++ [s.cur], cur := { sequence := s.cur.sequence + 1 } } : St) else s) = sf
+    obtain ⟨hf1, hf2⟩ := hsf sf hsfe.symm
+    have h0 : InvC { sf with cur := { sf.cur with packets := sf.cur.packets ++ [[]] } } p p.length := by
+      refine ⟨hf1, hf2, by simp, ?_, ?_, ?_⟩
+      · intro _ l hl; simp at hl; subst hl; rfl
+      · intro l hl; simp at hl; subst hl; simp
+      · intro l hl _ hp; subst hp; rfl
+    have h1 := inner_invC pol chunk wiggle hc hch _ p p.length h0
+    have := ih _ h1.done h1.compl
+    refine ⟨this.1, this.2.1, ?_⟩
+    intro lastP hlast l hl
+    cases ps with
+    | nil =>
+      simp only [List.getLast?_singleton, Option.some.injEq] at hlast
+      subst hlast
+      simp only [outer] at hl
+      have ht := h1.total l hl
+      have hn := h1.nonempty l hl
+      simp only [List.length_nil, Nat.add_zero] at ht
+      exact ⟨ht, fun hle => List.eq_nil_of_length_eq_zero (hn hle rfl)⟩
+    | cons p2 ps2 =>
+      rw [List.getLast?_cons_cons] at hlast
+      exact this.2.2 lastP hlast l hl
+
+/-- every page `from_packets` builds is `Canon`; the last packet on the last page is as long as the
+last packet given, modulo 255, and not empty unless that one is -/
+theorem fromPacketsWith_canon (pol : Policy) (chunk wiggle : Nat) (hc : 0 < chunk) (hch : chunk % 255 = 0) (seq : Nat)
+    (P : List Bytes) :
+    (∀ p ∈ fromPacketsWith pol chunk wiggle hc seq P, Canon p) ∧
+      ∀ lastP, P.getLast? = some lastP → ∀ y, (fromPacketsWith pol chunk wiggle hc seq P).getLast? = some y →
+        ∃ q l, y.packets = q ++ [l] ∧ l.length % 255 = lastP.length % 255 ∧ (l = [] → lastP = []) := by
+  have h := outer_invC pol chunk wiggle hc hch { done := [], cur := { sequence := seq } } P (by simp) rfl
+  constructor
+  · intro p hp
+    simp only [fromPacketsWith] at hp
+    split at hp
+    · exact h.1 p hp
+    · rcases List.mem_append.mp hp with hp | hp
+      · exact h.1 p hp
+      · simp only [List.mem_singleton] at hp; subst hp; exact canon_of_complete _ h.2.1
+  · intro lastP hlast y hy
+    have hP : P ≠ [] := by intro he; rw [he] at hlast; simp at hlast
+    have h0 : Inv { done := [], cur := { sequence := seq } } [] := ⟨rfl, fun h => by simp at h, rfl⟩
+    have hne := outer_cur_ne' pol chunk wiggle hc _ P [] h0 (Or.inr hP)
+    simp only [fromPacketsWith, hne, ↓reduceIte] at hy
+    simp at hy
+    subst hy
+    rcases List.eq_nil_or_concat (outer pol chunk wiggle hc { done := [], cur := { sequence := seq } } P).cur.packets with hh | ⟨q, l, hh⟩
+    · exact absurd hh hne
+    · rw [List.concat_eq_append] at hh
+      have := h.2.2 lastP hlast l (by rw [hh]; simp)
+      exact ⟨q, l, hh, this.1, this.2⟩
+
+theorem mem_modLast' {α : Type} (g : α → α) (l : List α) (x : α) (h : x ∈ modLast g l) :
+    x ∈ l ∨ ∃ y, l.getLast? = some y ∧ x = g y := by
+  induction l with
+  | nil => simp [modLast] at h
+  | cons a r ih =>
+    cases r with
+    | nil =>
+      simp only [modLast, List.mem_singleton] at h
+      exact Or.inr ⟨a, rfl, h⟩
+    | cons b r =>
+      simp only [modLast, List.mem_cons] at h
+      rcases h with h | h
+      · exact Or.inl (by simp [h])
+      · rcases ih (by simpa [List.mem_cons] using h) with h' | ⟨y, hy, hxy⟩
+        · exact Or.inl (by simp only [List.mem_cons] at h' ⊢; right; exact h')
+        · exact Or.inr ⟨y, by rw [List.getLast?_cons_cons]; exact hy, hxy⟩
+
+/-- the run as `replace` writes it is `Canon` when the pages it was given are and — in case the
+last old page left its last packet open — the last packet on the last new page is a non-empty
+multiple of 255 bytes -/
+theorem canon_prepare (o0 oL : Page) (new : List Page) (hc : ∀ q ∈ new, Canon q)
+    (hl : oL.complete = false → ∀ y, new.getLast? = some y → ∃ q l, y.packets = q ++ [l] ∧ l.length % 255 = 0 ∧ l ≠ []) :
+    ∀ p ∈ prepare o0 oL new, Canon p := by
+  intro p hp
+  unfold prepare at hp
+  have hX : ∀ x ∈ modHead (fun p => { p with first := o0.first, continued := o0.continued }) (number o0.serial o0.sequence new),
+      ∃ q ∈ new, x.packets = q.packets ∧ x.complete = q.complete := by
+    intro x hx
+    obtain ⟨z, hz, hyz⟩ := mem_modHead _ _ _ hx
+    obtain ⟨q, hq, s, rfl⟩ := mem_number _ _ _ _ hz
+    rcases hyz with rfl | rfl <;> exact ⟨q, hq, rfl, rfl⟩
+  rcases mem_modLast' _ _ _ hp with hp | ⟨y, hy, rfl⟩
+  · obtain ⟨q, hq, h1, h2⟩ := hX p hp
+    exact canon_congr p q (by rw [h1]) h2 (hc q hq)
+  · have hym : y ∈ modHead (fun p => { p with first := o0.first, continued := o0.continued }) (number o0.serial o0.sequence new) :=
+      List.mem_of_getLast? hy
+    obtain ⟨q, hq, h1, h2⟩ := hX y hym
+    cases hoc : oL.complete with
+    | true =>
+      apply canon_of_complete
+      simp only; split <;> rfl
+    | false =>
+      -- y corresponds to the last page of `new`
+      have hlast : ∃ y0, new.getLast? = some y0 ∧ y.packets = y0.packets := by
+        rcases getLast?_modHead _ _ _ hy with ⟨a, ha, rfl⟩ | ⟨_, hl2⟩
+        · have : (number o0.serial o0.sequence new).getLast? = some a := by rw [ha]; rfl
+          obtain ⟨l0, s, hl0, rfl⟩ := getLast?_number _ _ _ _ this
+          exact ⟨l0, hl0, rfl⟩
+        · obtain ⟨l0, s, hl0, rfl⟩ := getLast?_number _ _ _ _ hl2
+          exact ⟨l0, hl0, rfl⟩
+      obtain ⟨y0, hy0, hpk⟩ := hlast
+      obtain ⟨q', l, hql, hlm, hlne⟩ := hl hoc y0 hy0
+      apply canon_incomplete _ q' l
+      · simp only; split <;> (simp only; rw [hpk, hql])
+      · simp only; split <;> rfl
+      · exact hlm
+      · exact hlne
+
 /-! ### what both ways of laying out the new packets guarantee -/
 
 structure NewFacts (L : Layout) (P : List Bytes) (new : List Page) : Prop where
@@ -1647,16 +1920,29 @@ structure NewFacts (L : Layout) (P : List Bytes) (new : List Page) : Prop where
   lacing : ∀ p ∈ prepare L.c1 L.cK new, p.lacing.length ≤ 255
   cont : contOK L.c1.continued new
   lastpk : L.cK.complete = false → ∀ l, new.getLast? = some l → l.packets ≠ []
+  canon : ∀ p ∈ prepare L.c1 L.cK new, Canon p
 
 theorem facts_fromPackets (L : Layout) (P : List Bytes) (hP : P ≠ []) (hc1 : L.c1.continued = false) (D W : Nat)
-    (hc : 0 < D / 255 * 255) (hch : D / 255 * 255 ≤ 64770) :
+    (hc : 0 < D / 255 * 255) (hch : D / 255 * 255 ≤ 64770)
+    (hPlast : L.cK.complete = false → ∀ lp, P.getLast? = some lp → lp.length % 255 = 0 ∧ lp ≠ []) :
     NewFacts L P (fromPacketsWith (policy D) (D / 255 * 255) W hc L.c1.sequence P) := by
   obtain ⟨h1, h2, h3, init, l, h4, h5, h6⟩ := fromPacketsWith_facts (policy D) (D / 255 * 255) W hc L.c1.sequence P hP
   have hd := fromPacketsWith_dflt (policy D) (D / 255 * 255) W hc L.c1.sequence P
   have hlc := fromPacketsWith_laceCount D (D / 255 * 255) W hc hch L.c1.sequence P
+  have hcn := fromPacketsWith_canon (policy D) (D / 255 * 255) W hc (Nat.mul_mod_left _ _) L.c1.sequence P
   generalize fromPacketsWith (policy D) (D / 255 * 255) W hc L.c1.sequence P = new at *
+  have hcanon : ∀ p ∈ prepare L.c1 L.cK new, Canon p := by
+    apply canon_prepare _ _ _ hcn.1
+    intro hoc y hy
+    obtain ⟨lp, hlp⟩ : ∃ lp, P.getLast? = some lp := by
+      cases hg : P.getLast? with
+      | none => simp at hg; exact absurd hg hP
+      | some lp => exact ⟨lp, rfl⟩
+    obtain ⟨q, l', hql, hm, hne'⟩ := hcn.2 lp hlp y hy
+    obtain ⟨hp1, hp2⟩ := hPlast hoc lp hlp
+    exact ⟨q, l', hql, by rw [hm]; exact hp1, fun he => hp2 (hne' he)⟩
   refine ⟨by rw [h4]; simp, h1, startsFresh_of_contOK _ h2, ?_, fun p hp => ⟨(hd p hp).1, (hd p hp).2.1, (hd p hp).2.2.1, (hd p hp).2.2.2.1⟩,
-    ?_, ?_, by rw [hc1]; exact h2, ?_⟩
+    ?_, ?_, by rw [hc1]; exact h2, ?_, hcanon⟩
   · intro p hp
     cases new with
     | nil => simp at hp
@@ -1734,10 +2020,12 @@ theorem lacing_eq (p o : Page) (h1 : p.packets.map List.length = o.packets.map L
     p.lacing = o.lacing := by
   simp only [Page.lacing, h1, h2]
 
-theorem facts_copy (c : Codec) (L : Layout) (h : L.OK c) (P : List Bytes) (hP : P ≠ [])
+theorem facts_copy' (c : Codec) (L : Layout) (h : L.OK c) (P : List Bytes) (hP : P ≠ [])
     (hl : P.map List.length = (reasm [] L.oldPages).map List.length) (hc1 : L.c1.continued = false)
     (hrun : contOK L.c1.continued L.oldPages) :
-    NewFacts L P (copyLayout L.oldPages P.flatten).1 := by
+    NewFacts L P (copyLayout L.oldPages P.flatten).1 ∧
+      (prepare L.c1 L.cK (copyLayout L.oldPages P.flatten).1).map (fun p => (p.packets.map List.length, p.complete)) =
+        L.oldPages.map (fun p => (p.packets.map List.length, p.complete)) := by
   have hne : L.slots ≠ [] := by intro he; have := h.chain; rw [he] at this; exact this
   obtain ⟨_, h2, h3, h4⟩ := reasm_copyLayout L.oldPages P hl
   have hgood : ∀ o ∈ L.oldPages, Good o := by
@@ -1771,7 +2059,30 @@ theorem facts_copy (c : Codec) (L : Layout) (h : L.OK c) (P : List Bytes) (hP : 
     have e := congrArg (fun l => (l.map (fun x => x.2.1)).getLast?) hkey
     simp only [List.map_map, List.getLast?_map, hl', hi] at e
     simpa using e
-  refine ⟨?_, h2, ?_, ?_, hdf, ?_, ?_, hcont, ?_⟩
+  have hk2 : (prepare L.c1 L.cK new).map (fun p => (p.packets.map List.length, p.complete)) =
+      L.oldPages.map (fun p => (p.packets.map List.length, p.complete)) := by
+    unfold prepare
+    rw [map_modLast_last, map_modHead _ _ _ (by intro x; rfl), map_number _ _ _ _ (fun _ _ _ => rfl)]
+    · have := congrArg (List.map (fun x : Bool × Bool × List Nat => (x.2.2, x.2.1))) hkey
+      simpa [List.map_map, Function.comp_def] using this
+    · intro x hx
+      have hxc : x.complete = L.cK.complete := by
+        rcases getLast?_modHead _ _ _ hx with ⟨a, ha, rfl⟩ | ⟨_, hl2⟩
+        · have : (number L.c1.serial L.c1.sequence new).getLast? = some a := by rw [ha]; rfl
+          obtain ⟨l0, s, hl0, rfl⟩ := getLast?_number _ _ _ _ this
+          exact hlastc l0 hl0
+        · obtain ⟨l0, s, hl0, rfl⟩ := getLast?_number _ _ _ _ hl2
+          exact hlastc l0 hl0
+      simp only [Prod.mk.injEq]
+      constructor
+      · split <;> rfl
+      · split <;> simp [hxc]
+  have hcanon : ∀ p ∈ prepare L.c1 L.cK new, Canon p := by
+    intro p hp
+    obtain ⟨o, ho, hpo⟩ := exists_of_map_eq _ _ _ hk2 p hp
+    simp only [Prod.mk.injEq] at hpo
+    exact canon_congr p o hpo.1 hpo.2 (hgood o ho).canon
+  refine ⟨⟨?_, h2, ?_, ?_, hdf, ?_, ?_, hcont, ?_, hcanon⟩, hk2⟩
   · intro he; rw [he] at hlen; rw [hr] at hlen; simp at hlen
   · rw [startsFresh_shape _ _ h3]; exact hfresh
   · intro p hp
@@ -1788,24 +2099,6 @@ theorem facts_copy (c : Codec) (L : Layout) (h : L.OK c) (P : List Bytes) (hP : 
     obtain ⟨_, _, _, _, _, hr1, hr2⟩ := renderable_of_render o _ (hgood o ho).render
     rw [hpo.2.2]; exact ⟨hr1, hr2⟩
   · -- lacing values: those of the old pages
-    have hk2 : (prepare L.c1 L.cK new).map (fun p => (p.packets.map List.length, p.complete)) =
-        L.oldPages.map (fun p => (p.packets.map List.length, p.complete)) := by
-      unfold prepare
-      rw [map_modLast_last, map_modHead _ _ _ (by intro x; rfl), map_number _ _ _ _ (fun _ _ _ => rfl)]
-      · have := congrArg (List.map (fun x : Bool × Bool × List Nat => (x.2.2, x.2.1))) hkey
-        simpa [List.map_map, Function.comp_def] using this
-      · intro x hx
-        have hxc : x.complete = L.cK.complete := by
-          rcases getLast?_modHead _ _ _ hx with ⟨a, ha, rfl⟩ | ⟨_, hl2⟩
-          · have : (number L.c1.serial L.c1.sequence new).getLast? = some a := by rw [ha]; rfl
-            obtain ⟨l0, s, hl0, rfl⟩ := getLast?_number _ _ _ _ this
-            exact hlastc l0 hl0
-          · obtain ⟨l0, s, hl0, rfl⟩ := getLast?_number _ _ _ _ hl2
-            exact hlastc l0 hl0
-        simp only [Prod.mk.injEq]
-        constructor
-        · split <;> rfl
-        · split <;> simp [hxc]
     intro p hp
     obtain ⟨o, ho, hpo⟩ := exists_of_map_eq _ _ _ hk2 p hp
     simp only [Prod.mk.injEq] at hpo
@@ -1818,6 +2111,7 @@ theorem facts_copy (c : Codec) (L : Layout) (h : L.OK c) (P : List Bytes) (hP : 
 
 theorem newPages_facts (c : Codec) (L : Layout) (h : L.OK c) (P X : List Bytes) (hP : P ≠ [])
     (hpk : toPackets L.oldPages false = .ok X) (hc1 : L.c1.continued = false) (hrun : contOK L.c1.continued L.oldPages)
+    (hPlast : L.cK.complete = false → ∀ lp, P.getLast? = some lp → lp.length % 255 = 0 ∧ lp ≠ [])
     (new : List Page) (hnew : newPages c P L.oldPages = .ok new) : NewFacts L P new := by
   have hne : L.slots ≠ [] := by intro he; have := h.chain; rw [he] at this; exact this
   obtain ⟨r, hr⟩ := oldPages_eq L hne
@@ -1827,7 +2121,7 @@ theorem newPages_facts (c : Codec) (L : Layout) (h : L.OK c) (P X : List Bytes) 
     rw [fromPackets_default] at hn
     simp only [Except.ok.injEq] at hn
     rw [← hn]
-    exact facts_fromPackets L P hP hc1 Generated.oggDefaultSize Generated.oggWiggleRoom (by decide) (by decide)
+    exact facts_fromPackets L P hP hc1 Generated.oggDefaultSize Generated.oggWiggleRoom (by decide) (by decide) hPlast
   unfold newPages at hnew
   have hX : X = reasm [] L.oldPages := toPackets_ok _ _ _ (head_oldPages L hne) hc1 hpk
   have hB : tryPreserve P L.oldPages = .ok new → NewFacts L P new := by
@@ -1847,7 +2141,7 @@ theorem newPages_facts (c : Codec) (L : Layout) (h : L.OK c) (P X : List Bytes) 
       subst hrest
       simp only [ne_eq, not_true_eq_false, ↓reduceIte, Except.ok.injEq] at hn
       rw [← hn]
-      have := facts_copy c L h P hP hlens' hc1 hrun
+      have := (facts_copy' c L h P hP hlens' hc1 hrun).1
       rw [hcl] at this
       exact this
   cases c with
@@ -1856,6 +2150,889 @@ theorem newPages_facts (c : Codec) (L : Layout) (h : L.OK c) (P X : List Bytes) 
   | opus => exact hB hnew
   | speex => exact hB hnew
   | theora => exact hB hnew
+
+
+/-! ### the edit on a well-formed layout -/
+
+/-- the edited stream around the comment run: the run starts a packet, and the continuation flags of
+the run and of the pages of the stream behind it are consistent -/
+structure Layout.StreamOK (L : Layout) : Prop where
+  fresh : L.c1.continued = false
+  run : contOK L.c1.continued L.oldPages
+  post : contOK (!L.cK.complete) (stream L.serial L.post)
+
+theorem newPages_total (c : Codec) (L : Layout) (h : L.OK c) (hs : L.StreamOK) (P X : List Bytes) (hP : P ≠ [])
+    (hpk : toPackets L.oldPages false = .ok X) : ∃ new, newPages c P L.oldPages = .ok new := by
+  have hne : L.slots ≠ [] := by intro he; have := h.chain; rw [he] at this; exact this
+  obtain ⟨r, hr⟩ := oldPages_eq L hne
+  have hX : X = reasm [] L.oldPages := toPackets_ok _ _ _ (head_oldPages L hne) hs.fresh hpk
+  have hB : ∃ new, tryPreserve P L.oldPages = .ok new := by
+    unfold tryPreserve
+    rw [hpk]
+    simp only
+    split
+    · rw [hr]; simp only; rw [fromPackets_default]; exact ⟨_, rfl⟩
+    · rename_i hlens
+      have hlens' : P.map List.length = (reasm [] L.oldPages).map List.length := by
+        rw [← hX]; exact Classical.not_not.mp hlens
+      have hrest := (reasm_copyLayout L.oldPages P hlens').1
+      generalize copyLayout L.oldPages P.flatten = cl at hrest
+      obtain ⟨pages, rest⟩ := cl
+      simp only at hrest
+      subst hrest
+      exact ⟨pages, by simp⟩
+  unfold newPages
+  cases c with
+  | flac => rw [hr]; simp only; rw [fromPackets_default]; exact ⟨_, rfl⟩
+  | vorbis => exact hB
+  | opus => exact hB
+  | speex => exact hB
+  | theora => exact hB
+
+theorem getLast?_append_ne {α : Type} (a b : List α) (hb : b ≠ []) : (a ++ b).getLast? = b.getLast? := by
+  rw [List.getLast?_append]
+  cases hh : b.getLast? with
+  | none => simp at hh; exact absurd hh hb
+  | some x => rfl
+
+/-- when the last page of the run leaves its last packet open, that packet — the last of the run's
+packets — is a non-empty multiple of 255 bytes long -/
+theorem last_packet_open (c : Codec) (L : Layout) (h : L.OK c) (hc1 : L.c1.continued = false) (old0 new0 : Bytes)
+    (others : List Bytes) (hpk : toPackets L.oldPages false = .ok (old0 :: others)) :
+    L.cK.complete = false → ∀ lp, (new0 :: others).getLast? = some lp → lp.length % 255 = 0 ∧ lp ≠ [] := by
+  intro hoc lp hlp
+  have hne : L.slots ≠ [] := by intro he; have := h.chain; rw [he] at this; exact this
+  have hold : reasm [] L.oldPages = old0 :: others := (toPackets_ok _ _ _ (head_oldPages L hne) hc1 hpk).symm
+  obtain ⟨i, hi⟩ := oldPages_snoc L hne
+  have hcl := chain_last_closed L.slots h.chain i L.cK hi
+  have hlen : L.cK.packets.length > 1 := by
+    simp only [closed, Bool.or_eq_true, decide_eq_true_eq] at hcl
+    rcases hcl with hcl | hcl
+    · rw [hoc] at hcl; cases hcl
+    · exact hcl
+  have hgK : Good L.cK := by
+    have : L.cK ∈ L.oldPages := by rw [hi]; simp
+    obtain ⟨s, hs, hse⟩ := List.mem_map.mp this
+    rw [← hse]; exact (h.slots s hs).1
+  obtain ⟨f, g, rest, hpk'⟩ : ∃ f g rest, L.cK.packets = f :: g :: rest := by
+    match hp : L.cK.packets, hlen with
+    | f :: g :: rest, _ => exact ⟨f, g, rest, rfl⟩
+    | [_], hl => simp at hl
+    | [], hl => simp at hl
+  -- the last packet of the run is the last packet of that page
+  have hlastrun : (reasm [] L.oldPages).getLast? = (g :: rest).getLast? := by
+    rw [hi, reasm_append_singleton]
+    unfold step
+    rw [hpk']
+    simp only
+    split
+    · exact getLast?_append_ne _ _ (by simp)
+    · rw [show reasm [] i ++ f :: g :: rest = (reasm [] i ++ [f]) ++ (g :: rest) by simp]
+      exact getLast?_append_ne _ _ (by simp)
+  rw [hold] at hlastrun
+  have hothers : others ≠ [] := by
+    intro he
+    have := length_reasm_ge_last [] i L.cK
+    rw [← hi, hold, he, hpk'] at this
+    simp at this
+  have hlp' : (g :: rest).getLast? = some lp := by
+    rw [← hlastrun]
+    cases others with
+    | nil => exact absurd rfl hothers
+    | cons o os => rw [List.getLast?_cons_cons] at hlp ⊢; exact hlp
+  rcases hgK.canon with hcn | ⟨_, init, m, hm, he⟩
+  · rw [hcn] at hoc; cases hoc
+  · rw [hpk'] at he
+    have h1 : (List.map List.length (f :: g :: rest)).getLast? = some (255 * m) := by rw [he]; simp
+    rw [List.getLast?_map, List.getLast?_cons_cons, hlp'] at h1
+    simp only [Option.map_some, Option.some.injEq] at h1
+    refine ⟨by rw [h1]; omega, ?_⟩
+    intro hle; rw [hle] at h1; simp at h1; omega
+
+/-- THE statement about `save` on a well-formed layout: it succeeds and writes the pages `L.after new`;
+the pages of all other streams are untouched; the edited stream holds the same packets with the new
+comment packet in the place of the old one -/
+theorem save_spec (c : Codec) (L : Layout) (h : L.OK c) (hs : L.StreamOK) (vc padData : Bytes) (pad : PadChoice)
+    (old0 new0 : Bytes) (others : List Bytes) (new : List Page)
+    (hpk : toPackets L.oldPages false = .ok (old0 :: others))
+    (hnp : newPacket c old0 vc padData pad L.render.length = .ok new0)
+    (hnew : newPages c (new0 :: others) L.oldPages = .ok new)
+    (hseq : L.c1.sequence + new.length + (L.post.filter (·.serial = L.serial)).length ≤ 2 ^ 32) :
+    save c L.render vc padData pad = .ok (renderPages (L.after new)) ∧
+    OggInj.others L.serial (L.after new) = OggInj.others L.serial L.pages ∧
+    ∃ A rest, reasm [] (stream L.serial L.pages) = A ++ old0 :: rest ∧
+      reasm [] (stream L.serial (L.after new)) = A ++ new0 :: rest := by
+  have hf := newPages_facts c L h (new0 :: others) (old0 :: others) (by simp) hpk hs.fresh hs.run
+    (last_packet_open c L h hs.fresh old0 new0 others hpk) new hnew
+  have hg := good_c1 c L h
+  have hren := renderable_prepare L.c1 L.cK new (renderable_of_render _ _ hg.render).2.1 (by omega)
+    (fun q hq => ⟨(hf.dflt q hq).1, (hf.dflt q hq).2.1⟩) hf.pos hf.lacing
+  refine ⟨save_layout c L h vc padData pad old0 new0 others new hpk hnp hnew hf.ne hren (fun _ => hseq), others_after c L h new, ?_⟩
+  exact packets_after c L h new old0 new0 others hpk hs.fresh
+    (carries_of new _ L.c1 L.cK hf.carries hf.fresh hf.head) hs.post
+
+
+/-! ### C03: numbering, continuation flags, first/last flags after the edit -/
+
+theorem range'_split {α : Type} (f : α → Nat) (x y : List α) (a : Nat)
+    (h : (x ++ y).map f = List.range' a (x ++ y).length) :
+    x.map f = List.range' a x.length ∧ y.map f = List.range' (a + x.length) y.length := by
+  rw [List.map_append, List.length_append, ← List.range'_append_1] at h
+  have := List.append_inj h (by simp)
+  exact this
+
+theorem range'_join {α : Type} (f : α → Nat) (x y : List α) (a : Nat)
+    (hx : x.map f = List.range' a x.length) (hy : y.map f = List.range' (a + x.length) y.length) :
+    (x ++ y).map f = List.range' a (x ++ y).length := by
+  rw [List.map_append, List.length_append, ← List.range'_append_1, hx, hy]
+
+theorem seq_stream_renum (ser n : Nat) (ps : List Page) :
+    (stream ser (renum ser n ps)).map (·.sequence) = List.range' n (stream ser ps).length ∧
+      (stream ser (renum ser n ps)).length = (stream ser ps).length := by
+  induction ps generalizing n with
+  | nil => simp [renum, stream]
+  | cons p r ih =>
+    simp only [renum]
+    split
+    · rename_i hs
+      have := ih (n + 1)
+      simp only [stream, List.filter_cons, hs, decide_true, ↓reduceIte, List.map_cons, List.length_cons,
+        List.range'_succ] at this ⊢
+      exact ⟨by rw [this.1], by rw [this.2]⟩
+    · rename_i hs
+      have := ih n
+      simp only [stream, List.filter_cons, hs, decide_false, Bool.false_eq_true, ↓reduceIte] at this ⊢
+      exact this
+
+/-- page sequence numbers: gapless before, gapless after -/
+theorem seq_after (c : Codec) (L : Layout) (h : L.OK c) (new : List Page) (a : Nat)
+    (hin : (stream L.serial L.pages).map (·.sequence) = List.range' a (stream L.serial L.pages).length) :
+    (stream L.serial (L.after new)).map (·.sequence) = List.range' a (stream L.serial (L.after new)).length := by
+  have hne : L.slots ≠ [] := by intro he; have := h.chain; rw [he] at this; exact this
+  obtain ⟨r, hr⟩ := oldPages_eq L hne
+  rw [stream_pages c L h, List.append_assoc] at hin
+  obtain ⟨h1, h23⟩ := range'_split _ _ _ _ hin
+  obtain ⟨h2, h3⟩ := range'_split _ _ _ _ h23
+  have hc1 : L.c1.sequence = a + (stream L.serial L.pre).length := by
+    rw [hr] at h2; simp [List.range'_succ] at h2; exact h2.1
+  rw [stream_after c L h, List.append_assoc]
+  apply range'_join _ _ _ _ h1
+  apply range'_join
+  · rw [seq_prepare, length_prepare, hc1]
+  · rw [length_prepare]
+    split
+    · have := seq_stream_renum L.serial (L.c1.sequence + new.length) L.post
+      rw [this.1, this.2, hc1]
+    · rename_i heq
+      have heq' : L.slots.length = new.length := Classical.not_not.mp heq
+      have : L.oldPages.length = new.length := by simp [Layout.oldPages, heq']
+      rw [← this]; exact h3
+
+theorem key_stream_renum (ser n : Nat) (ps : List Page) :
+    (stream ser ps).map (fun p => (p.continued, p.complete, p.packets.map List.length)) =
+      (stream ser (renum ser n ps)).map (fun p => (p.continued, p.complete, p.packets.map List.length)) := by
+  induction ps generalizing n with
+  | nil => rfl
+  | cons p r ih =>
+    simp only [renum]
+    split
+    · rename_i hs
+      simp only [stream, List.filter_cons, hs, decide_true, ↓reduceIte, List.map_cons, List.cons.injEq, true_and]
+      exact ih (n + 1)
+    · rename_i hs
+      simp only [stream, List.filter_cons, hs, decide_false, Bool.false_eq_true, ↓reduceIte]
+      exact ih n
+
+theorem contOK_stream_renum (c : Bool) (ser n : Nat) (ps : List Page) (h : contOK c (stream ser ps)) :
+    contOK c (stream ser (renum ser n ps)) :=
+  contOK_congr c _ _ (key_stream_renum ser n ps) h
+
+/-- consistent continuation flags on the whole stream give what `StreamOK` asks for -/
+theorem streamOK_of_contOK (c : Codec) (L : Layout) (h : L.OK c) (hfresh : L.c1.continued = false)
+    (hin : contOK false (stream L.serial L.pages)) : L.StreamOK := by
+  have hne : L.slots ≠ [] := by intro he; have := h.chain; rw [he] at this; exact this
+  obtain ⟨r, hr⟩ := oldPages_eq L hne
+  obtain ⟨i, hi⟩ := oldPages_snoc L hne
+  rw [stream_pages c L h, List.append_assoc, contOK_append, contOK_append] at hin
+  obtain ⟨_, h2, h3⟩ := hin
+  have he : endC false (stream L.serial L.pre) = L.c1.continued := by
+    rw [hr] at h2; exact h2.1.symm
+  rw [he] at h2 h3
+  refine ⟨hfresh, h2, ?_⟩
+  rw [hi, endC_append_singleton] at h3
+  exact h3
+
+/-- continuation flags: consistent before, consistent after -/
+theorem contOK_after (c : Codec) (L : Layout) (h : L.OK c) (P : List Bytes) (new : List Page) (hf : NewFacts L P new)
+    (hin : contOK false (stream L.serial L.pages)) : contOK false (stream L.serial (L.after new)) := by
+  have hne : L.slots ≠ [] := by intro he; have := h.chain; rw [he] at this; exact this
+  obtain ⟨r, hr⟩ := oldPages_eq L hne
+  obtain ⟨i, hi⟩ := oldPages_snoc L hne
+  rw [stream_pages c L h, List.append_assoc, contOK_append, contOK_append] at hin
+  obtain ⟨h1, h2, h3⟩ := hin
+  have he : endC false (stream L.serial L.pre) = L.c1.continued := by
+    rw [hr] at h2; exact h2.1.symm
+  rw [he] at h3
+  rw [hi, endC_append_singleton] at h3
+  obtain ⟨hp1, hp2⟩ := contOK_prepare L.c1 L.cK new hf.ne hf.cont hf.lastpk
+  rw [stream_after c L h, List.append_assoc, contOK_append, contOK_append, he, hp2]
+  refine ⟨h1, hp1, ?_⟩
+  split
+  · exact contOK_stream_renum _ _ _ _ h3
+  · exact h3
+
+theorem first_prepare (o0 oL : Page) (n0 : Page) (nr : List Page) (hd : ∀ p ∈ n0 :: nr, p.first = false) :
+    (prepare o0 oL (n0 :: nr)).map (·.first) = o0.first :: nr.map (fun _ => false) := by
+  unfold prepare
+  rw [map_modLast _ _ _ (by intro x; simp only; split <;> rfl)]
+  simp only [number, modHead, List.map_cons, List.cons.injEq, true_and]
+  rw [map_number _ _ _ _ (fun _ _ _ => rfl)]
+  apply List.map_congr_left
+  intro p hp; exact hd p (by simp [hp])
+
+theorem last_modLast (g : Page → Page) (b : Bool) (l : List Page) (hne : l ≠ []) (hg : ∀ x, (g x).last = b)
+    (hl : ∀ p ∈ l, p.last = false) : (modLast g l).map (·.last) = l.dropLast.map (fun _ => false) ++ [b] := by
+  induction l with
+  | nil => exact absurd rfl hne
+  | cons a r ih =>
+    cases r with
+    | nil => simp [modLast, hg]
+    | cons b' r' =>
+      simp only [modLast, List.map_cons, List.dropLast_cons_cons, List.cons_append, List.cons.injEq]
+      exact ⟨hl a (by simp), ih (by simp) (fun p hp => hl p (by simp [hp]))⟩
+
+theorem last_prepare (o0 oL : Page) (new : List Page) (hne : new ≠ []) (hd : ∀ p ∈ new, p.last = false) :
+    (prepare o0 oL new).map (·.last) = new.dropLast.map (fun _ => false) ++ [oL.last] := by
+  unfold prepare
+  have hl : (modHead (fun p => { p with first := o0.first, continued := o0.continued }) (number o0.serial o0.sequence new)).length =
+      new.length := by rw [length_modHead, length_number]
+  rw [last_modLast _ oL.last]
+  · congr 1
+    simp only [List.map_const', List.length_dropLast, hl]
+  · intro he; rw [he] at hl; cases new with
+    | nil => exact hne rfl
+    | cons _ _ => simp at hl
+  · intro x; simp only; split <;> rfl
+  · intro p hp
+    obtain ⟨z, hz, hyz⟩ := mem_modHead _ _ _ hp
+    obtain ⟨q, hq, s, rfl⟩ := mem_number _ _ _ _ hz
+    rcases hyz with rfl | rfl <;> exact hd q hq
+
+
+/-! ### the strict reader reads the edited file back -/
+
+theorem readAll_pages (ps : List Page) (fuel : Nat) (hg : ∀ p ∈ ps, Good p) (hf : ps.length < fuel) :
+    readAll fuel (renderPages ps) = some ps := by
+  induction ps generalizing fuel with
+  | nil =>
+    cases fuel with
+    | zero => omega
+    | succ fuel => simp [readAll, parse]
+  | cons p r ih =>
+    cases fuel with
+    | zero => simp at hf
+    | succ fuel =>
+      have hp := hg p (by simp)
+      rw [renderPages_cons]
+      simp only [readAll]
+      rw [parse_render p (rb p) (renderPages r) hp.render hp.version hp.flagsHi hp.canon]
+      simp only
+      have : (rb p ++ renderPages r).take ((rb p ++ renderPages r).length - (renderPages r).length) = rb p := by
+        simp
+      rw [if_neg (by rw [this]; simp [hp.render]), ih fuel (fun x hx => hg x (by simp [hx])) (by simp at hf; omega)]
+      rfl
+
+theorem good_renum (ser n : Nat) (ps : List Page) (hg : ∀ p ∈ ps, Good p)
+    (hn : n + (ps.filter (·.serial = ser)).length ≤ 2 ^ 32) : ∀ p ∈ renum ser n ps, Good p := by
+  induction ps generalizing n with
+  | nil => simp [renum]
+  | cons q r ih =>
+    intro p hp
+    simp only [renum] at hp
+    split at hp
+    · rename_i hs
+      simp only [List.filter_cons, hs, decide_true, ↓reduceIte, List.length_cons] at hn
+      simp only [List.mem_cons] at hp
+      rcases hp with rfl | hp
+      · exact good_setSeq q n (hg q (by simp)) (by omega)
+      · exact ih (n + 1) (fun x hx => hg x (by simp [hx])) (by omega) p hp
+    · rename_i hs
+      simp only [List.filter_cons, hs, decide_false, Bool.false_eq_true, ↓reduceIte] at hn
+      simp only [List.mem_cons] at hp
+      rcases hp with rfl | hp
+      · exact hg p (by simp)
+      · exact ih n (fun x hx => hg x (by simp [hx])) hn p hp
+
+theorem mem_splicePages (ds : List (List Page)) (m : List Slot) (p : Page) (h : p ∈ splicePages ds m) :
+    (∃ d ∈ ds, p ∈ d) ∨ (∃ s ∈ m, p ∈ s.2) := by
+  induction m generalizing ds with
+  | nil => cases ds <;> simp [splicePages] at h
+  | cons s m ih =>
+    cases ds with
+    | nil => simp [splicePages] at h
+    | cons d ds =>
+      simp only [splicePages, List.mem_append] at h
+      rcases h with (h | h) | h
+      · exact Or.inl ⟨d, by simp, h⟩
+      · exact Or.inr ⟨s, by simp, h⟩
+      · rcases ih ds h with ⟨d', hd', hp⟩ | ⟨s', hs', hp⟩
+        · exact Or.inl ⟨d', by simp [hd'], hp⟩
+        · exact Or.inr ⟨s', by simp [hs'], hp⟩
+
+/-- every page of the edited file is one the page reader gives back as written, provided the new
+pages are (`Canon`: complete, or ending in a packet of 255·m bytes) -/
+theorem good_after (c : Codec) (L : Layout) (h : L.OK c) (new : List Page)
+    (hren : ∀ p ∈ prepare L.c1 L.cK new, Renderable p) (hd : ∀ q ∈ new, q.version = 0 ∧ q.flagsHi = 0)
+    (hcanon : ∀ p ∈ prepare L.c1 L.cK new, Canon p)
+    (hseq : L.c1.sequence + new.length + (L.post.filter (·.serial = L.serial)).length ≤ 2 ^ 32) :
+    ∀ p ∈ L.after new, Good p := by
+  have hsl : 0 < L.slots.length := by
+    cases hh : L.slots with
+    | nil => have := h.chain; rw [hh] at this; exact absurd this (by simp [Chain])
+    | cons _ _ => simp
+  intro p hp
+  unfold Layout.after at hp
+  simp only [List.mem_append] at hp
+  rcases hp with (hp | hp) | hp
+  · exact h.pre p hp
+  · rcases mem_splicePages _ _ p hp with ⟨d, hd', hpd⟩ | ⟨s, hs, hps⟩
+    · have hm : p ∈ (fitPages L.slots.length (prepare L.c1 L.cK new)).flatten := List.mem_flatten.mpr ⟨d, hd', hpd⟩
+      rw [flatten_fitPages _ _ hsl] at hm
+      obtain ⟨q, hq, _, hv, hf, _⟩ := prepare_mem _ _ _ p hm
+      exact ⟨by rw [hv]; exact (hd q hq).1, by rw [hf, (hd q hq).2]; omega, hcanon p hm,
+        render_of_renderable p (hren p hm)⟩
+    · exact ((h.slots s hs).2.2 p hps).1
+  · split at hp
+    · exact good_renum _ _ _ h.post (by omega) p hp
+    · exact h.post p hp
+
+/-! ### consequences for the edited file as a whole -/
+
+theorem facts_of_edit (c : Codec) (L : Layout) (h : L.OK c) (hs : L.StreamOK) (old0 new0 : Bytes) (others : List Bytes)
+    (new : List Page) (hpk : toPackets L.oldPages false = .ok (old0 :: others))
+    (hnew : newPages c (new0 :: others) L.oldPages = .ok new) : NewFacts L (new0 :: others) new :=
+  newPages_facts c L h (new0 :: others) (old0 :: others) (by simp) hpk hs.fresh hs.run
+    (last_packet_open c L h hs.fresh old0 new0 others hpk) new hnew
+
+theorem renderable_of_facts (c : Codec) (L : Layout) (h : L.OK c) (P : List Bytes) (new : List Page) (hf : NewFacts L P new)
+    (hseq : L.c1.sequence + new.length ≤ 2 ^ 32) : ∀ p ∈ prepare L.c1 L.cK new, Renderable p :=
+  renderable_prepare L.c1 L.cK new (renderable_of_render _ _ (good_c1 c L h).render).2.1 hseq
+    (fun q hq => ⟨(hf.dflt q hq).1, (hf.dflt q hq).2.1⟩) hf.pos hf.lacing
+
+/-- C03: every page of the edited file can be written and is read back as it is, and the strict
+reader (capture pattern, version, lacing, exact extent, checksum) reads the file back into exactly
+these pages -/
+theorem readAll_after (c : Codec) (L : Layout) (h : L.OK c) (P : List Bytes) (new : List Page) (hf : NewFacts L P new)
+    (hseq : L.c1.sequence + new.length + (L.post.filter (·.serial = L.serial)).length ≤ 2 ^ 32) :
+    (∀ p ∈ L.after new, Good p) ∧
+      readAll ((renderPages (L.after new)).length + 1) (renderPages (L.after new)) = some (L.after new) := by
+  have hg := good_after c L h new (renderable_of_facts c L h P new hf (by omega))
+    (fun q hq => ⟨(hf.dflt q hq).1, (hf.dflt q hq).2.1⟩) hf.canon hseq
+  exact ⟨hg, readAll_pages _ _ hg (by have := length_renderPages_ge (L.after new); omega)⟩
+
+/-! ### the new packet (C09, C08) -/
+
+theorem newPacket_padded (c : Codec) (hc : c ≠ .flac) (old0 vc padData : Bytes) (hp : c = .opus → padData = [])
+    (pad : PadChoice) (fsize : Nat) :
+    newPacket c old0 vc padData pad fsize =
+      .ok (c.commentPrefix ++ vc ++ zeros (getPadding pad ((old0.length : Int) - ((c.commentPrefix ++ vc).length : Int))
+        (fsize - old0.length)).toNat) := by
+  cases c with
+  | flac => exact absurd rfl hc
+  | opus => simp [newPacket, hp rfl]
+  | vorbis => simp [newPacket]
+  | speex => simp [newPacket]
+  | theora => simp [newPacket]
+
+theorem newPacket_opus_preserved (old0 vc padData : Bytes) (hp : padData ≠ []) (pad : PadChoice) (fsize : Nat) :
+    newPacket .opus old0 vc padData pad fsize = .ok (magicOpusTags ++ vc ++ padData) := by
+  simp [newPacket, hp, Codec.commentPrefix]
+
+theorem newPacket_flac (old0 vc padData : Bytes) (hv : vc.length ≤ 0xFFFFFF) (pad : PadChoice) (fsize : Nat) :
+    newPacket .flac old0 vc padData pad fsize = .ok (old0.take 1 ++ toBE 3 vc.length ++ vc) := by
+  simp only [newPacket]
+  rw [if_neg (by omega)]
+
+
+/-! ### saving in place: the new comment packet is as long as the old one -/
+
+theorem newPages_copy (c : Codec) (hc : c ≠ .flac) (L : Layout) (h : L.OK c) (hs : L.StreamOK) (P X : List Bytes)
+    (hpk : toPackets L.oldPages false = .ok X) (hlens : P.map List.length = X.map List.length)
+    (new : List Page) (hnew : newPages c P L.oldPages = .ok new) : new = (copyLayout L.oldPages P.flatten).1 := by
+  have hne : L.slots ≠ [] := by intro he; have := h.chain; rw [he] at this; exact this
+  have hX : X = reasm [] L.oldPages := toPackets_ok _ _ _ (head_oldPages L hne) hs.fresh hpk
+  have hB : tryPreserve P L.oldPages = .ok new → new = (copyLayout L.oldPages P.flatten).1 := by
+    intro hn
+    unfold tryPreserve at hn
+    rw [hpk] at hn
+    simp only at hn
+    rw [if_neg (by simp [hlens])] at hn
+    have hrest := (reasm_copyLayout L.oldPages P (by rw [← hX]; exact hlens)).1
+    generalize copyLayout L.oldPages P.flatten = cl at hn hrest ⊢
+    obtain ⟨pages, rest⟩ := cl
+    simp only at hn hrest ⊢
+    subst hrest
+    simp only [ne_eq, not_true_eq_false, ↓reduceIte, Except.ok.injEq] at hn
+    exact hn.symm
+  unfold newPages at hnew
+  cases c with
+  | flac => exact absurd rfl hc
+  | vorbis => exact hB hnew
+  | opus => exact hB hnew
+  | speex => exact hB hnew
+  | theora => exact hB hnew
+
+/-- the slots with other pages in the places of the run's pages -/
+def reslot (ps : List Page) (m : List Slot) : List Slot := List.zipWith (fun p s => (p, s.2)) ps m
+
+theorem splicePages_singletons (ps : List Page) (m : List Slot) (hl : ps.length = m.length) :
+    splicePages (ps.map fun p => [p]) m = slotPages (reslot ps m) := by
+  induction m generalizing ps with
+  | nil => cases ps with
+    | nil => rfl
+    | cons _ _ => simp at hl
+  | cons s m ih =>
+    cases ps with
+    | nil => simp at hl
+    | cons p r =>
+      simp only [List.map_cons, splicePages, reslot, List.zipWith_cons_cons, slotPages_cons]
+      rw [ih r (by simpa using hl)]
+      simp [reslot]
+
+theorem fitPages_same (k : Nat) (ps : List Page) (hl : ps.length = k) : fitPages k ps = ps.map fun p => [p] := by
+  unfold fitPages
+  rw [if_pos (by omega)]
+  simp [hl]
+
+theorem size_eq_of_key (p o : Page) (h1 : p.packets.map List.length = o.packets.map List.length) (h2 : p.complete = o.complete) :
+    p.size = o.size := by
+  simp only [Page.size, lacing_eq p o h1 h2, h1]
+
+theorem length_renderPages (ps : List Page) : (renderPages ps).length = (ps.map Page.size).sum := by
+  induction ps with
+  | nil => rfl
+  | cons p r ih => simp [length_rb, ih]
+
+/-- C09 (and the first step of C07): when the new comment packet has the length of the old one, the
+run keeps its layout — the same number of pages, each of the size it had — so the file keeps its
+length and every page outside the run stays where it was, byte for byte; no page is renumbered -/
+theorem inplace_after (c : Codec) (hc : c ≠ .flac) (L : Layout) (h : L.OK c) (hs : L.StreamOK) (old0 new0 : Bytes)
+    (others : List Bytes) (new : List Page) (hpk : toPackets L.oldPages false = .ok (old0 :: others))
+    (hlen : new0.length = old0.length) (hnew : newPages c (new0 :: others) L.oldPages = .ok new) :
+    new.length = L.slots.length ∧
+      (prepare L.c1 L.cK new).map Page.size = L.oldPages.map Page.size ∧
+      L.after new = L.pre ++ slotPages (reslot (prepare L.c1 L.cK new) L.slots) ++ L.post := by
+  have hne : L.slots ≠ [] := by intro he; have := h.chain; rw [he] at this; exact this
+  have hX : old0 :: others = reasm [] L.oldPages := toPackets_ok _ _ _ (head_oldPages L hne) hs.fresh hpk
+  have hlens : (new0 :: others).map List.length = (old0 :: others).map List.length := by simp [hlen]
+  have hcopy := newPages_copy c hc L h hs _ _ hpk hlens new hnew
+  have hk := (facts_copy' c L h (new0 :: others) (by simp) (by rw [← hX]; exact hlens) hs.fresh hs.run).2
+  rw [← hcopy] at hk
+  have hl1 : (prepare L.c1 L.cK new).length = L.oldPages.length := by simpa using congrArg List.length hk
+  have hl2 : new.length = L.slots.length := by
+    rw [length_prepare] at hl1; simpa [Layout.oldPages] using hl1
+  refine ⟨hl2, ?_, ?_⟩
+  · apply List.ext_getElem (by simp [hl1])
+    intro n h1 h2
+    simp only [List.getElem_map]
+    have e := congrArg (fun l => l[n]?) hk
+    simp only [List.getElem?_map] at e
+    have h1' : n < (prepare L.c1 L.cK new).length := by simpa using h1
+    have h2' : n < L.oldPages.length := by simpa using h2
+    rw [List.getElem?_eq_getElem h1', List.getElem?_eq_getElem h2'] at e
+    simp only [Option.map_some, Option.some.injEq, Prod.mk.injEq] at e
+    exact size_eq_of_key _ _ e.1 e.2
+  · unfold Layout.after
+    rw [if_neg (by simp [hl2]), fitPages_same _ _ (by rw [length_prepare, hl2]),
+      splicePages_singletons _ _ (by rw [length_prepare, hl2])]
+
+theorem length_slotPages_reslot (ps : List Page) (m : List Slot) (hl : ps.length = m.length)
+    (hsz : ps.map Page.size = (m.map (·.1)).map Page.size) :
+    (renderPages (slotPages (reslot ps m))).length = (renderPages (slotPages m)).length := by
+  induction m generalizing ps with
+  | nil => cases ps with
+    | nil => rfl
+    | cons _ _ => simp at hl
+  | cons s m ih =>
+    cases ps with
+    | nil => simp at hl
+    | cons p r =>
+      simp only [List.map_cons, List.cons.injEq] at hsz
+      simp only [reslot, List.zipWith_cons_cons, slotPages_cons, renderPages_cons, renderPages_append,
+        List.length_append, length_rb, hsz.1]
+      have := ih r (by simpa using hl) hsz.2
+      simp only [reslot] at this
+      rw [this]
+
+/-- … in bytes: same length, the bytes in front of the run and behind it where they were -/
+theorem inplace_bytes (L : Layout) (ps : List Page) (hl : ps.length = L.slots.length)
+    (hsz : ps.map Page.size = L.oldPages.map Page.size) :
+    let out := renderPages (L.pre ++ slotPages (reslot ps L.slots) ++ L.post)
+    out.length = L.render.length ∧ out.take (renderPages L.pre).length = renderPages L.pre ∧
+      out.drop ((renderPages L.pre).length + (renderPages (slotPages L.slots)).length) = renderPages L.post := by
+  have hlen := length_slotPages_reslot ps L.slots hl hsz
+  simp only [renderPages_append, Layout.render, Layout.pages]
+  refine ⟨by simp only [List.length_append, hlen], ?_, ?_⟩
+  · rw [List.append_assoc]; exact List.take_left' rfl
+  · rw [← hlen, ← List.length_append]; exact List.drop_left' rfl
+
+
+/-! ### saving what is already there changes nothing (C07, C08) -/
+
+theorem page_list_ext (l1 l2 : List Page)
+    (h1 : l1.map (·.packets) = l2.map (·.packets)) (h2 : l1.map (·.complete) = l2.map (·.complete))
+    (h3 : l1.map (·.continued) = l2.map (·.continued)) (h4 : l1.map (·.sequence) = l2.map (·.sequence))
+    (h5 : l1.map (·.position) = l2.map (·.position)) (h6 : l1.map (·.serial) = l2.map (·.serial))
+    (h7 : l1.map (·.first) = l2.map (·.first)) (h8 : l1.map (·.last) = l2.map (·.last))
+    (h9 : l1.map (·.flagsHi) = l2.map (·.flagsHi)) (h10 : l1.map (·.version) = l2.map (·.version)) : l1 = l2 := by
+  induction l1 generalizing l2 with
+  | nil => cases l2 with
+    | nil => rfl
+    | cons _ _ => simp at h1
+  | cons a r ih =>
+    cases l2 with
+    | nil => simp at h1
+    | cons b s =>
+      simp only [List.map_cons, List.cons.injEq] at *
+      rw [ih s h1.2 h2.2 h3.2 h4.2 h5.2 h6.2 h7.2 h8.2 h9.2 h10.2]
+      congr 1
+      cases a; cases b
+      simp_all
+
+theorem splitLike_same (ps : List Bytes) (rest : Bytes) : splitLike ps (ps.flatten ++ rest) = (ps, rest) := by
+  induction ps with
+  | nil => rfl
+  | cons p r ih =>
+    simp only [splitLike, List.flatten_cons, List.append_assoc]
+    rw [List.drop_left' rfl, ih, List.take_left' rfl]
+
+theorem copyLayout_same (olds : List Page) (rest : Bytes) :
+    (copyLayout olds ((olds.map (·.packets.flatten)).flatten ++ rest)).1.map (·.packets) = olds.map (·.packets) := by
+  induction olds generalizing rest with
+  | nil => rfl
+  | cons o r ih =>
+    simp only [copyLayout, List.map_cons, List.flatten_cons, List.append_assoc]
+    rw [splitLike_same]
+    simp only [List.cons.injEq, true_and]
+    exact ih rest
+
+/-- a run as mutagen itself writes it: no reserved flag bits, consecutive numbers, first/last flags
+only at its ends -/
+structure Layout.Tidy (L : Layout) : Prop where
+  flagsHi : ∀ o ∈ L.oldPages, o.flagsHi = 0
+  seqs : L.oldPages.map (·.sequence) = List.range' L.c1.sequence L.oldPages.length
+  first : ∀ o ∈ L.oldPages.tail, o.first = false
+  last : ∀ o ∈ L.oldPages.dropLast, o.last = false
+
+theorem map_const_of_forall {α β : Type} (f : α → β) (l : List α) (b : β) (h : ∀ x ∈ l, f x = b) :
+    l.map f = l.map (fun _ => b) := List.map_congr_left h
+
+theorem prepare_copy_same (c : Codec) (L : Layout) (h : L.OK c) (hs : L.StreamOK) (ht : L.Tidy) (P : List Bytes)
+    (hP : P = reasm [] L.oldPages) (hPne : P ≠ []) :
+    prepare L.c1 L.cK (copyLayout L.oldPages P.flatten).1 = L.oldPages := by
+  have hne : L.slots ≠ [] := by intro he; have := h.chain; rw [he] at this; exact this
+  obtain ⟨r, hr⟩ := oldPages_eq L hne
+  obtain ⟨i, hi⟩ := oldPages_snoc L hne
+  have hcl := chain_last_closed L.slots h.chain i L.cK hi
+  have hfc := facts_copy' c L h P hPne (by rw [hP]) hs.fresh hs.run
+  obtain ⟨hf, hk2⟩ := hfc
+  obtain ⟨_, _, h3, h4⟩ := reasm_copyLayout L.oldPages P (by rw [hP])
+  have hpk : (copyLayout L.oldPages P.flatten).1.map (·.packets) = L.oldPages.map (·.packets) := by
+    have := copyLayout_same L.oldPages []
+    rw [List.append_nil] at this
+    have e : P.flatten = (L.oldPages.map (·.packets.flatten)).flatten := by rw [hP, flatten_reasm]; simp
+    rw [e]; exact this
+  have hdf := copyLayout_dflt L.oldPages P.flatten
+  generalize (copyLayout L.oldPages P.flatten).1 = new at *
+  have hlen : new.length = L.oldPages.length := by simpa using congrArg List.length hpk
+  have hsd := sameData_prepare L.c1 L.cK new hf.head
+  obtain ⟨n0, nr, rfl⟩ : ∃ n0 nr, new = n0 :: nr := by
+    cases new with
+    | nil => exact absurd rfl hf.ne
+    | cons a b => exact ⟨a, b, rfl⟩
+  have hgood : ∀ o ∈ L.oldPages, Good o := by
+    intro o ho
+    obtain ⟨s, hs', rfl⟩ := List.mem_map.mp ho
+    exact (h.slots s hs').1
+  apply page_list_ext
+  · -- packets
+    have := congrArg (List.map (fun x : List Bytes × Bool => x.1)) hsd
+    simp only [List.map_map, Function.comp_def] at this
+    rw [this]; exact hpk
+  · -- complete
+    have := congrArg (List.map (fun x : List Nat × Bool => x.2)) hk2
+    simpa [List.map_map, Function.comp_def] using this
+  · -- continued
+    have := congrArg (List.map (fun x : List Bytes × Bool => x.2)) hsd
+    simp only [List.map_map, Function.comp_def] at this
+    rw [this]
+    have := congrArg (List.map (fun x : List Nat × Bool => x.2)) h3
+    simpa [List.map_map, Function.comp_def, shape] using this
+  · -- sequence
+    rw [seq_prepare, ht.seqs, hlen]
+  · -- position: the last page closes the run, so `replace` does not touch its position
+    have hpos : (n0 :: nr).map (·.position) = L.oldPages.map (·.position) := by
+      have := congrArg (List.map (fun x : Nat × Bool × Int => x.2.2)) h4
+      simpa [List.map_map, Function.comp_def] using this
+    rw [← hpos]
+    unfold prepare
+    rw [map_modLast_last, map_modHead _ _ _ (by intro x; rfl), map_number _ _ _ _ (fun _ _ _ => rfl)]
+    intro x hx
+    -- x is the copy of cK
+    have hxp : x.packets.length = L.cK.packets.length := by
+      have hx' : ∃ y0, (n0 :: nr).getLast? = some y0 ∧ x.packets = y0.packets := by
+        rcases getLast?_modHead _ _ _ hx with ⟨a, ha, rfl⟩ | ⟨_, hl2⟩
+        · have : (number L.c1.serial L.c1.sequence (n0 :: nr)).getLast? = some a := by rw [ha]; rfl
+          obtain ⟨l0, s, hl0, rfl⟩ := getLast?_number _ _ _ _ this
+          exact ⟨l0, hl0, rfl⟩
+        · obtain ⟨l0, s, hl0, rfl⟩ := getLast?_number _ _ _ _ hl2
+          exact ⟨l0, hl0, rfl⟩
+      obtain ⟨y0, hy0, hxy⟩ := hx'
+      have e := congrArg (fun l => l.getLast?) hpk
+      simp only [List.getLast?_map, hy0, hi] at e
+      simp at e
+      rw [hxy, e]
+    simp only
+    split
+    · rename_i hcond
+      exfalso
+      simp only [Bool.and_eq_true, Bool.not_eq_eq_eq_not, Bool.not_true, beq_iff_eq] at hcond
+      simp only [closed, Bool.or_eq_true, decide_eq_true_eq] at hcl
+      rcases hcl with hcl | hcl
+      · rw [hcl] at hcond; exact absurd hcond.1 (by simp)
+      · omega
+    · rfl
+  · -- serial
+    have h1 : (prepare L.c1 L.cK (n0 :: nr)).map (·.serial) = (prepare L.c1 L.cK (n0 :: nr)).map (fun _ => L.c1.serial) :=
+      map_const_of_forall _ _ _ (serial_prepare _ _ _)
+    have h2 : L.oldPages.map (·.serial) = L.oldPages.map (fun _ => L.c1.serial) := by
+      apply map_const_of_forall
+      intro o ho
+      obtain ⟨s, hs', rfl⟩ := List.mem_map.mp ho
+      exact (h.slots s hs').2.1
+    rw [h1, h2]
+    simp only [List.map_const', length_prepare, hlen]
+  · -- first
+    rw [first_prepare _ _ _ _ (fun p hp => (hdf p hp).2.2.1), hr]
+    simp only [List.map_cons, List.cons.injEq, true_and]
+    have : r.map (·.first) = r.map (fun _ => false) := by
+      apply map_const_of_forall
+      intro o ho
+      exact ht.first o (by rw [hr]; exact ho)
+    rw [this]
+    have hl : nr.length = r.length := by rw [hr] at hlen; simpa using hlen
+    simp only [List.map_const', hl]
+  · -- last
+    rw [last_prepare _ _ _ (by simp) (fun p hp => (hdf p hp).2.2.2), hi]
+    simp only [List.map_append, List.map_cons, List.map_nil]
+    have : i.map (·.last) = i.map (fun _ => false) := by
+      apply map_const_of_forall
+      intro o ho
+      exact ht.last o (by rw [hi]; simp [ho])
+    rw [this]
+    have hl : (n0 :: nr).dropLast.length = i.length := by
+      rw [hi] at hlen; simp only [List.length_dropLast, List.length_cons, List.length_append, List.length_nil] at hlen ⊢; omega
+    simp only [List.map_const', hl]
+  · -- flagsHi
+    have h1 : (prepare L.c1 L.cK (n0 :: nr)).map (·.flagsHi) = (prepare L.c1 L.cK (n0 :: nr)).map (fun _ => 0) := by
+      apply map_const_of_forall
+      intro p hp
+      obtain ⟨q, hq, _, _, hfh, _⟩ := prepare_mem _ _ _ p hp
+      rw [hfh]; exact (hdf q hq).2.1
+    have h2 : L.oldPages.map (·.flagsHi) = L.oldPages.map (fun _ => 0) := map_const_of_forall _ _ _ ht.flagsHi
+    rw [h1, h2]; simp only [List.map_const', length_prepare, hlen]
+  · -- version
+    have h1 : (prepare L.c1 L.cK (n0 :: nr)).map (·.version) = (prepare L.c1 L.cK (n0 :: nr)).map (fun _ => 0) := by
+      apply map_const_of_forall
+      intro p hp
+      obtain ⟨q, hq, _, hv, _⟩ := prepare_mem _ _ _ p hp
+      rw [hv]; exact (hdf q hq).1
+    have h2 : L.oldPages.map (·.version) = L.oldPages.map (fun _ => 0) :=
+      map_const_of_forall _ _ _ (fun o ho => (hgood o ho).version)
+    rw [h1, h2]; simp only [List.map_const', length_prepare, hlen]
+
+
+theorem reslot_self (m : List Slot) : reslot (m.map (·.1)) m = m := by
+  induction m with
+  | nil => rfl
+  | cons s m ih => simp only [List.map_cons, reslot, List.zipWith_cons_cons] at ih ⊢; rw [ih]
+
+/-- C07 / C08, the fixed point: on a tidy layout, a save that would write the comment packet that is
+already there leaves the file byte for byte as it is (no page is rewritten differently, none is
+renumbered) — what a second `save()` of unchanged tags and a second `delete()` come down to -/
+theorem save_unchanged (c : Codec) (hc : c ≠ .flac) (L : Layout) (h : L.OK c) (hs : L.StreamOK) (ht : L.Tidy)
+    (vc padData : Bytes) (pad : PadChoice) (old0 : Bytes) (others : List Bytes)
+    (hpk : toPackets L.oldPages false = .ok (old0 :: others))
+    (hnp : newPacket c old0 vc padData pad L.render.length = .ok old0) :
+    save c L.render vc padData pad = .ok L.render := by
+  have hne : L.slots ≠ [] := by intro he; have := h.chain; rw [he] at this; exact this
+  have hX : old0 :: others = reasm [] L.oldPages := toPackets_ok _ _ _ (head_oldPages L hne) hs.fresh hpk
+  obtain ⟨new, hnew⟩ := newPages_total c L h hs (old0 :: others) (old0 :: others) (by simp) hpk
+  have hcopy := newPages_copy c hc L h hs _ _ hpk rfl new hnew
+  have hsame := prepare_copy_same c L h hs ht (old0 :: others) hX (by simp)
+  rw [← hcopy] at hsame
+  obtain ⟨hl, _, hafter⟩ := inplace_after c hc L h hs old0 old0 others new hpk rfl hnew
+  have hgood : ∀ o ∈ L.oldPages, Good o := by
+    intro o ho
+    obtain ⟨s, hs', rfl⟩ := List.mem_map.mp ho
+    exact (h.slots s hs').1
+  have hren : ∀ p ∈ prepare L.c1 L.cK new, Renderable p := by
+    rw [hsame]; intro p hp; exact renderable_of_render p _ (hgood p hp).render
+  have hf := facts_of_edit c L h hs old0 old0 others new hpk hnew
+  rw [save_layout c L h vc padData pad old0 old0 others new hpk hnp hnew hf.ne hren (fun hd => absurd hl.symm hd)]
+  rw [hafter, hsame]
+  have : reslot L.oldPages L.slots = L.slots := reslot_self L.slots
+  rw [this]
+  rfl
+
+
+/-! ### a concrete multiplexed Vorbis layout (non-vacuity of the hypotheses) -/
+
+theorem good_of_complete (p : Page) (h1 : p.version = 0) (h2 : p.flagsHi < 32) (h3 : p.complete = true)
+    (h4 : Renderable p) : Good p := ⟨h1, h2, Or.inl h3, render_of_renderable p h4⟩
+
+namespace Example
+
+/-- the Vorbis identification page of stream 7 -/
+def idPage : Page := { packets := [magicVorbisId ++ [0, 0, 0, 0, 2]], serial := 7, sequence := 0, first := true }
+/-- the first page of another stream (serial 9) -/
+def otherFirst : Page := { packets := [[1, 2, 3]], serial := 9, sequence := 0, first := true }
+/-- the comment page: "\x03vorbis", an empty comment (vendor "", no entries, framing bit), 4 bytes of
+padding; and a setup packet on the same page -/
+def commentPacket : Bytes := magicVorbisComment ++ [0, 0, 0, 0, 0, 0, 0, 0, 1] ++ [0, 0, 0, 0]
+def setupPacket : Bytes := [5, 0x76, 0x6F, 0x72, 0x62, 0x69, 0x73, 42]
+def commentPage : Page := { packets := [commentPacket, setupPacket], serial := 7, sequence := 1 }
+def otherLast : Page := { packets := [[4]], serial := 9, sequence := 1, last := true, position := 5 }
+def audioPage : Page := { packets := [[9, 9], [8]], serial := 7, sequence := 2, last := true, position := 100 }
+
+def layout : Layout := { pre := [idPage, otherFirst], slots := [(commentPage, [])], post := [otherLast, audioPage] }
+
+theorem good_all : Good idPage ∧ Good otherFirst ∧ Good commentPage ∧ Good otherLast ∧ Good audioPage := by
+  refine ⟨?_, ?_, ?_, ?_, ?_⟩ <;> exact good_of_complete _ rfl (by decide) rfl (by unfold Renderable; decide)
+
+theorem layout_ok : layout.OK .vorbis := by
+  obtain ⟨g1, g2, g3, g4, g5⟩ := good_all
+  refine ⟨?_, ?_, ?_, ?_, ?_⟩
+  · intro p hp; simp [layout] at hp; rcases hp with rfl | rfl <;> assumption
+  · intro s hs; simp [layout] at hs; subst hs
+    exact ⟨g3, rfl, by simp⟩
+  · exact ⟨rfl, rfl⟩
+  · intro p hp; simp [layout] at hp; rcases hp with rfl | rfl <;> assumption
+  · refine ⟨?_, by decide⟩
+    intro p hp; simp [layout] at hp; rcases hp with rfl | rfl <;> decide
+
+theorem layout_stream : layout.StreamOK := by
+  refine ⟨rfl, ?_, ?_⟩
+  · exact ⟨rfl, by simp [commentPage], trivial⟩
+  · show contOK _ (stream layout.serial layout.post)
+    have : stream layout.serial layout.post = [audioPage] := by decide
+    rw [this]
+    exact ⟨rfl, by simp [audioPage], trivial⟩
+
+
+/-- the run's packets -/
+theorem layout_packets : toPackets layout.oldPages false = .ok [commentPacket, setupPacket] := by decide +kernel
+
+/-- a save of the same empty comment that answers the padding callback with 2: the new packet, the new
+pages (laid out afresh: the packet is 2 bytes shorter), and the numeric side condition -/
+theorem layout_save :
+    newPacket .vorbis commentPacket [0, 0, 0, 0, 0, 0, 0, 0, 1] [] (.callback fun _ _ => 2) layout.render.length =
+      .ok (magicVorbisComment ++ [0, 0, 0, 0, 0, 0, 0, 0, 1] ++ [0, 0]) ∧
+    (∃ new, newPages .vorbis [magicVorbisComment ++ [0, 0, 0, 0, 0, 0, 0, 0, 1] ++ [0, 0], setupPacket] layout.oldPages = .ok new ∧
+      new.length = 1) ∧
+    (layout.post.filter (·.serial = layout.serial)).length = 1 := by
+  refine ⟨by decide +kernel, ?_, by decide⟩
+  have hl : (newPages .vorbis [magicVorbisComment ++ [0, 0, 0, 0, 0, 0, 0, 0, 1] ++ [0, 0], setupPacket] layout.oldPages).map
+      List.length = .ok 1 := by decide +kernel
+  cases hn : newPages .vorbis [magicVorbisComment ++ [0, 0, 0, 0, 0, 0, 0, 0, 1] ++ [0, 0], setupPacket] layout.oldPages with
+  | error e => rw [hn] at hl; cases hl
+  | ok new =>
+    rw [hn] at hl
+    simp only [Except.map, Except.ok.injEq] at hl
+    exact ⟨new, rfl, hl⟩
+
+
+/-! a comment packet on two pages with a page of another stream between them -/
+
+def part1 : Bytes := magicVorbisComment ++ [0, 0, 0, 0, 0, 0, 0, 0, 1] ++ List.replicate 239 0
+def part2 : Bytes := [0, 0, 0]
+def c1 : Page := { packets := [part1], serial := 7, sequence := 1, complete := false, position := -1 }
+def otherMid : Page := { packets := [[6, 6]], serial := 9, sequence := 1 }
+def c2 : Page := { packets := [part2], serial := 7, sequence := 2, continued := true }
+def otherLast2 : Page := { packets := [[4]], serial := 9, sequence := 2, last := true, position := 5 }
+def audioPage2 : Page := { packets := [[9, 9], [8]], serial := 7, sequence := 3, last := true, position := 100 }
+
+def layout2 : Layout :=
+  { pre := [idPage, otherFirst], slots := [(c1, [otherMid]), (c2, [])], post := [otherLast2, audioPage2] }
+
+theorem layout2_ok : layout2.OK .vorbis := by
+  obtain ⟨g1, g2, _, _, _⟩ := good_all
+  have gc1 : Good c1 := ⟨rfl, by decide, Or.inr ⟨rfl, [], 1, by decide, by decide +kernel⟩,
+    render_of_renderable _ (by unfold Renderable; decide +kernel)⟩
+  have gm : Good otherMid := good_of_complete _ rfl (by decide) rfl (by unfold Renderable; decide)
+  have gc2 : Good c2 := good_of_complete _ rfl (by decide) rfl (by unfold Renderable; decide)
+  have g4 : Good otherLast2 := good_of_complete _ rfl (by decide) rfl (by unfold Renderable; decide)
+  have g5 : Good audioPage2 := good_of_complete _ rfl (by decide) rfl (by unfold Renderable; decide)
+  refine ⟨?_, ?_, ?_, ?_, ?_⟩
+  · intro p hp; simp [layout2] at hp; rcases hp with rfl | rfl <;> assumption
+  · intro s hs; simp [layout2] at hs
+    rcases hs with rfl | rfl
+    · refine ⟨gc1, rfl, ?_⟩
+      intro p hp; simp at hp; subst hp; exact ⟨gm, by decide⟩
+    · exact ⟨gc2, rfl, by simp⟩
+  · exact ⟨rfl, rfl, rfl⟩
+  · intro p hp; simp [layout2] at hp; rcases hp with rfl | rfl <;> assumption
+  · refine ⟨?_, by decide⟩
+    intro p hp; simp [layout2] at hp; rcases hp with rfl | rfl <;> decide
+
+theorem layout2_stream : layout2.StreamOK := by
+  refine ⟨rfl, ?_, ?_⟩
+  · exact ⟨rfl, by simp [c1], rfl, by simp [c2], trivial⟩
+  · show contOK _ (stream layout2.serial layout2.post)
+    have : stream layout2.serial layout2.post = [audioPage2] := by decide
+    rw [this]
+    exact ⟨rfl, by simp [audioPage2], trivial⟩
+
+theorem layout2_packets : toPackets layout2.oldPages false = .ok [part1 ++ part2] := by decide +kernel
+
+end Example
+
+theorem first_prepare' (o0 oL : Page) (new : List Page) (hne : new ≠ []) (hd : ∀ p ∈ new, p.first = false) :
+    (prepare o0 oL new).map (·.first) = o0.first :: List.replicate (new.length - 1) false := by
+  cases new with
+  | nil => exact absurd rfl hne
+  | cons n0 nr =>
+    rw [first_prepare _ _ _ _ hd]
+    simp [List.map_const']
+
+theorem last_prepare' (o0 oL : Page) (new : List Page) (hne : new ≠ []) (hd : ∀ p ∈ new, p.last = false) :
+    (prepare o0 oL new).map (·.last) = List.replicate (new.length - 1) false ++ [oL.last] := by
+  rw [last_prepare _ _ _ hne hd]
+  simp [List.map_const']
+
+
+/-- a save whose new comment packet is as long as the old one, in one statement: it succeeds, the
+run keeps its number of pages and their sizes, the file keeps its length and everything outside the
+run its place -/
+theorem save_inplace (c : Codec) (hc : c ≠ .flac) (L : Layout) (h : L.OK c) (hs : L.StreamOK) (vc padData : Bytes)
+    (pad : PadChoice) (old0 new0 : Bytes) (others : List Bytes)
+    (hpk : toPackets L.oldPages false = .ok (old0 :: others))
+    (hnp : newPacket c old0 vc padData pad L.render.length = .ok new0) (hlen : new0.length = old0.length)
+    (hseq : L.c1.sequence + L.slots.length ≤ 2 ^ 32) :
+    ∃ new out, newPages c (new0 :: others) L.oldPages = .ok new ∧ new.length = L.slots.length ∧
+      (prepare L.c1 L.cK new).map Page.size = L.oldPages.map Page.size ∧
+      out = renderPages (L.pre ++ slotPages (reslot (prepare L.c1 L.cK new) L.slots) ++ L.post) ∧
+      save c L.render vc padData pad = .ok out ∧ out.length = L.render.length ∧
+      out.take (renderPages L.pre).length = renderPages L.pre ∧
+      out.drop ((renderPages L.pre).length + (renderPages (slotPages L.slots)).length) = renderPages L.post := by
+  obtain ⟨new, hnew⟩ := newPages_total c L h hs (new0 :: others) (old0 :: others) (by simp) hpk
+  obtain ⟨hl, hsz, hafter⟩ := inplace_after c hc L h hs old0 new0 others new hpk hlen hnew
+  have hf := facts_of_edit c L h hs old0 new0 others new hpk hnew
+  have hren := renderable_of_facts c L h _ new hf (by omega)
+  have hsave := save_layout c L h vc padData pad old0 new0 others new hpk hnp hnew hf.ne hren (fun hd => absurd hl.symm hd)
+  obtain ⟨b1, b2, b3⟩ := inplace_bytes L (prepare L.c1 L.cK new) (by rw [length_prepare, hl]) hsz
+  refine ⟨new, _, hnew, hl, hsz, rfl, ?_, b1, b2, b3⟩
+  rw [hsave, hafter]
 
 
 end Mutagen.OggInj
